@@ -25,3 +25,15 @@ class K:
     @property
     def p(self):
         return None
+
+
+def fd8(x8=None):
+    return None
+
+
+def fd9(x9=0):
+    return None
+
+
+def fd10(*, x10=None):
+    return None
